@@ -48,6 +48,25 @@ void vf_ghost_init(int unrelated);
 /* harness helper: build a live ledger block exactly as f_vf_alloc would */
 uint8_t *vf_make_block(uint64_t id, uint64_t bytes, uint64_t align);
 
+/* ---- ghost object-lifetime model for vf::Tracked (C06 C09 C11 C12 C17) ----
+ * One watched address g_o, chosen arbitrarily by the harness: whatever is proved about the object at g_o holds for
+ * every address.  The hooks are called by the special members of vf::Tracked (inst/support.hpp). */
+extern uint8_t *g_o;         /* watched address */
+extern _Bool g_o_alive;      /* an alive Tracked object lives at g_o */
+extern uint8_t g_o_how;      /* how it came to life: 0 from a value, 1 copy-constructed, 2 move-constructed */
+extern uint8_t *g_o_from;    /* source object of its copy/move construction or last assignment */
+extern uint8_t g_o_asg;      /* last assignment to it: 0 none, 1 copy-assigned, 2 move-assigned */
+extern _Bool g_o_moved_from; /* it was the source of a move construction/assignment */
+extern uint64_t g_obj_live, g_obj_ctor, g_obj_copy, g_obj_move, g_obj_assign, g_obj_move_assign, g_obj_dtor;
+void f_vf_obj_ctor(uint8_t *p, uint32_t v);
+void f_vf_obj_copy(uint8_t *p, uint8_t *src);
+void f_vf_obj_move(uint8_t *p, uint8_t *src);
+void f_vf_obj_assign(uint8_t *p, uint8_t *src);
+void f_vf_obj_move_assign(uint8_t *p, uint8_t *src);
+void f_vf_obj_dtor(uint8_t *p);
+#define VF_TRACKED_SIZE 4
+#define VF_OVERLAPS_O(d, n) ((uintptr_t)g_o + VF_TRACKED_SIZE > (uintptr_t)(d) && (uintptr_t)g_o < (uintptr_t)(d) + (n))
+
 _Bool nondet_bool(void);
 uint64_t nondet_u64(void);
 uint32_t nondet_u32(void);
